@@ -209,7 +209,9 @@ pub fn check(c: &mut Checks, w: &World, miners: &[MinerH], r: &MsgResult, is_tic
                     }
                     expected += gone;
                     if now >= pre.period_start {
-                        let dl = pre.current_deadline as usize;
+                        // the deadline that closes is the one containing this epoch by the miner's proving-period offset (the
+                        // recorded `current_deadline` can be stale at the first callback after the cron was (re)activated)
+                        let dl = ((now - pre.period_start).rem_euclid(2880) / 60) as usize;
                         // (2) continued-fault fee for the power that was already faulty when the deadline closed
                         let mut faulty_qa = BigInt::zero();
                         for p in &pre.deadlines[dl].partitions {
